@@ -6,6 +6,10 @@ from checks import _simctl as S
 from sim import wire
 from vlib.harness import hyp_part, EnumPart
 
+import os
+
+# the quick tier runs in one process unless VERIF_JOBS asks for more (the box is shared)
+SERIAL = os.environ.get("VERIF_TIER") == "quick" and not os.environ.get("VERIF_JOBS")
 PID = "C46"
 TITLE = "Per-statement options override profile and session defaults"
 LEVEL = "exploration"
